@@ -50,6 +50,7 @@ func newSlice(id string) *sliceRes {
 	r.Metadata().Annotations().Set("ak", "av")
 	r.Metadata().Finalizers().Add("f1")
 	r.Metadata().Finalizers().Add("f2")
+	r.Metadata().Finalizers().Add("a0") // three, and not in sorted order: comparisons that sort must sort a copy
 	return r
 }
 
@@ -60,6 +61,7 @@ func newInt(id string) *conformance.IntResource {
 	r.Metadata().Annotations().Set("ak", "av")
 	r.Metadata().Finalizers().Add("f1")
 	r.Metadata().Finalizers().Add("f2")
+	r.Metadata().Finalizers().Add("a0")
 	return r
 }
 
@@ -119,6 +121,34 @@ type mutation struct {
 func mutations() []mutation {
 	t := time.Date(1999, 1, 1, 0, 0, 0, 0, time.UTC)
 	return []mutation{
+		// read-only operations on a held object: they must change nothing for anybody (they come first: the holder
+		// still shares everything with the store and the other holders)
+		{"Metadata.Equal(same finalizers, one replaced)", func(h *held) {
+			other := h.md.Copy()
+			if f := *other.Finalizers(); len(f) > 0 {
+				other.Finalizers().Set(append(append(resource.Finalizers{}, f[:len(f)-1]...), "zz"))
+			}
+			_ = h.md.Equal(other)
+			_ = other.Equal(*h.md)
+		}},
+		{"resource.Equal(deep copy with one finalizer replaced)", func(h *held) {
+			if h.res == nil {
+				return
+			}
+			cp := h.res.DeepCopy()
+			if f := *cp.Metadata().Finalizers(); len(f) > 0 {
+				cp.Metadata().Finalizers().Set(append(append(resource.Finalizers{}, f[:len(f)-1]...), "zz"))
+			}
+			_ = resource.Equal(h.res, cp)
+			_ = resource.Equal(cp, h.res)
+		}},
+		{"String/Labels.Raw/Finalizers iteration (pure reads)", func(h *held) {
+			_ = h.md.String()
+			for range h.md.Labels().Raw() {
+			}
+			for range *h.md.Finalizers() {
+			}
+		}},
 		{"labels.Set(existing key)", func(h *held) { h.md.Labels().Set("k", "CHANGED") }},
 		{"labels.Set(new key)", func(h *held) { h.md.Labels().Set("new", "by "+h.name) }},
 		{"labels.Delete", func(h *held) { h.md.Labels().Delete("k2") }},
